@@ -33,6 +33,19 @@ META = {
 K_ALG = 64.0  # DESIGN §2.2: algebraic ops 64·eps·scale
 
 
+_IDENT = {}
+
+
+def model_identity(ctx, name):
+    if name not in _IDENT:
+        rep = ctx.driver.run([f"{name}.one {common.to_wire(0.0)}"])[0]
+        st, toks = common.parse_reply(rep)
+        if st != "ok":
+            raise common.InfraError(f"model identity: {rep}")
+        _IDENT[name] = [float(common.from_wire(t)) for t in toks]
+    return _IDENT[name]
+
+
 def tol(dtype):
     return K_ALG * common.EPS[dtype]
 
@@ -236,7 +249,7 @@ def run_ops(ctx: Ctx, n_cases: int):
                   except NotImplementedError:   # only SO3 implements the in-place constructor; a loud refusal is fine
                       X3 = I
                       ctx.count("identity_.not-implemented")
-                  want = {"SO3": [0, 0, 0, 1.], "SE3": [0, 0, 0, 0, 0, 0, 1.], "RxSO3": [0, 0, 0, 1., 1.], "Sim3": [0, 0, 0, 0, 0, 0, 1., 1.]}[name]
+                  want = model_identity(ctx, name)      # the MODEL's identity constant (theorems *_one_mul / *_mul_one are about it)
                   wt = torch.tensor(want, dtype=U.dt(dtype)).expand(sa + (len(want),))
                   for nm, v in (("identity_" + name, I), ("identity_like", I2), ("identity_", X3)):
                       if v.ltype != X.ltype or not torch.equal(v.tensor(), wt):
@@ -462,6 +475,152 @@ def run_retr_ladder(ctx: Ctx):
                 retr_ladder_case(ctx, case)
                 ctx.note_case(("retrvalid", name, dtype, theta), theta != 0.0)
                 ctx.count(f"retrvalid.{name}.{dtype}")
+
+
+# ----------------------------------------------------------------------------- classes 19, 20, 23, 25 (round-4 lessons)
+
+def _rand_batch(name, n, D, seed):
+    # (observation on /repo, outside every property: randn_se3 / SE3 / sim3 / Sim3 raise for the documented `generator=`
+    # keyword — it is forwarded to torch.tensor; so the global RNG is forked and seeded instead)
+    P = U.pp()
+    with torch.random.fork_rng():
+        torch.manual_seed(seed)
+        X = getattr(P, "randn_" + name)(n, dtype=D)
+    return X
+
+
+def _close(a, b, D, scale=1.0):
+    eps = torch.finfo(D).eps
+    return bool(((a.double() - b.double()).abs() <= 8 * eps * (scale + b.double().abs())).all())
+
+
+def run_large(ctx: Ctx):
+    """(19) batches around internal block sizes: 2^k, 2^k+-1 elements; oracle = split consistency (the batch result must be
+    the concatenation of the results on two pieces) and the single-item call on first / last / a middle item"""
+    P = U.pp()
+    sizes = [2 ** 14 - 1, 2 ** 14, 2 ** 14 + 1, 2 ** 15 + 1, 2 ** 16 + 1] if ctx.quick else [2 ** k + d for k in (12, 13, 14, 15, 16, 17) for d in (-1, 0, 1)]
+    for name in U.GROUPS:
+        for D in (torch.float64, torch.float32):
+            for n in sizes:
+                case = {"stream": "large", "type": name, "dtype": str(D).split(".")[-1], "n": n}
+                X, Y = _rand_batch(name, n, D, 3 * n + 1), _rand_batch(name, n, D, 3 * n + 2)
+                p3 = torch.randn(n, 3, dtype=D, generator=torch.Generator().manual_seed(n))
+                fns = {"Mul": lambda A, B, q: (A @ B).tensor(), "Inv": lambda A, B, q: A.Inv().tensor(), "Act": lambda A, B, q: A.Act(q),
+                       "matrix": lambda A, B, q: A.matrix().flatten(-2), "Retr": lambda A, B, q: (A + B.Log().tensor()).tensor()}
+                cut = n // 3 + 1
+                for nm, f in fns.items():
+                    try:
+                        whole = f(X, Y, p3)
+                        parts = torch.cat([f(X[:cut], Y[:cut], p3[:cut]), f(X[cut:], Y[cut:], p3[cut:])], 0)
+                        tsc = float(X.tensor().abs().max()) * float(Y.tensor().abs().max()) + float(p3.abs().max())
+                        if whole.shape != parts.shape or not _close(whole, parts, D, tsc):
+                            bad = int((~((whole.double() - parts.double()).abs() <= 8 * torch.finfo(D).eps * (tsc + parts.double().abs())).all(-1)).nonzero()[0]) \
+                                if whole.shape == parts.shape else -1
+                            ctx.fail(case | {"op": nm}, f"split: {nm} on a batch of {n} {name} elements differs from the same call on two pieces (first bad item {bad})")
+                        for i in (0, n // 2, n - 1):
+                            one = f(X[i:i + 1], Y[i:i + 1], p3[i:i + 1])
+                            if not _close(whole[i:i + 1], one, D, tsc):
+                                ctx.fail(case | {"op": nm, "item": i}, f"item: {nm} item {i} of a batch of {n} differs from the single-item call ({name})")
+                    except Exception as e:
+                        ctx.fail(case | {"op": nm}, f"raises: {nm} on a batch of {n} raised {type(e).__name__}: {str(e)[:100]}")
+                ctx.note_case(("large", name, str(D), n), True)
+                ctx.count("large")
+
+
+def run_ties(ctx: Ctx):
+    """(20) exact coincidences: quarter turns (|v| == |w| bit for bit), equal components, half turns, scale exactly 1,
+    translation exactly 0 — every law on the real code"""
+    s = math.sqrt(0.5)
+    quats = [[s, 0, 0, s], [0, s, 0, -s], [0, 0, -s, s], [0.5, 0.5, 0.5, 0.5], [-0.5, 0.5, -0.5, 0.5], [0.5, -0.5, -0.5, -0.5],
+             [1.0, 0, 0, 0], [0, 0, 1.0, 0], [0, 0, 0, -1.0], [s, s, 0, 0]]
+    k = 0
+    for name in U.GROUPS:
+        for dtype in ("float64", "float32"):
+            for qa in quats:
+                for qb in quats[::3]:
+                    k += 1
+                    def el(q, t, sc):
+                        x = [0.0] * U.GDIM[name]
+                        x[U.QSL[name]] = q
+                        if U.TSL[name] is not None:
+                            x[U.TSL[name]] = t
+                        if U.SIDX[name] is not None:
+                            x[U.SIDX[name]] = sc
+                        return U.to_dtype_exact([x], dtype)[1][0].tolist()
+                    case = {"stream": "laws", "type": name, "dtype": dtype, "X": el(qa, [0.0, 0.0, 0.0], 1.0), "Y": el(qb, [1.0, -2.0, 0.5], 2.0),
+                            "Z": el(qa, [1.0, 1.0, 1.0], 0.5), "p3": [1.0, 1.0, 1.0], "p4": [1.0, -1.0, 1.0, [0.0, 1.0][k % 2]]}
+                    law_case(ctx, case)
+                    ctx.note_case(("ties", name, dtype, k), True)
+                    ctx.count("ties")
+
+
+def run_mode_order(ctx: Ctx):
+    """(23) the first call of a shape happens under inference_mode / no_grad, later calls track gradients: values must
+    not depend on the order of modes (module-level caches keyed by shape/dtype)"""
+    import contextlib
+    P = U.pp()
+    k = 0
+    for name in U.GROUPS:
+        for D in (torch.float64, torch.float32):
+            for order in (("inference", "grad", "plain"), ("no_grad", "grad", "inference"), ("grad", "inference", "plain")):
+                k += 1
+                n = 40 + k          # a batch extent no other stream uses
+                X, Y = _rand_batch(name, n, D, 7 * k), _rand_batch(name, n, D, 7 * k + 1)
+                p3 = torch.randn(n, 3, dtype=D, generator=torch.Generator().manual_seed(k))
+                ref = None
+                case = {"stream": "modes", "type": name, "dtype": str(D).split(".")[-1], "order": list(order), "n": n}
+                for mode in order:
+                    cm = {"inference": torch.inference_mode, "no_grad": torch.no_grad}.get(mode, contextlib.nullcontext)
+                    try:
+                        with cm():
+                            A = X.clone()
+                            if mode == "grad":
+                                A.requires_grad_(True)
+                            outs = [(A @ Y).tensor(), A.Inv().tensor(), A.Act(p3), A.matrix(), (A + Y.Log().tensor()).tensor()]
+                            if mode == "grad":
+                                sum(o.sum() for o in outs).backward()
+                                if A.grad is None or not bool(torch.isfinite(A.grad).all()):
+                                    ctx.fail(case | {"mode": mode}, f"grad: no finite gradient after the modes {order[:order.index(mode)]} came first ({name})")
+                            outs = [o.detach().clone() for o in outs]
+                    except Exception as e:
+                        ctx.fail(case | {"mode": mode}, f"raises: under mode '{mode}' after {order[:order.index(mode)]}: {type(e).__name__}: {str(e)[:100]}")
+                        break
+                    if ref is None:
+                        ref = outs
+                    elif not all(torch.equal(a, b) for a, b in zip(ref, outs)):
+                        ctx.fail(case | {"mode": mode}, f"mode: values under '{mode}' differ from the first mode of the order {order} ({name})")
+                ctx.note_case(("modes", name, str(D), order), True)
+                ctx.count("modes")
+
+
+def run_default_dtype(ctx: Ctx):
+    """(25) process-wide default dtype different from the operand dtype: result dtype / ltype / shape are the operand's"""
+    P = U.pp()
+    old = torch.get_default_dtype()
+    try:
+        for default in (torch.float64, torch.float32):
+            torch.set_default_dtype(default)
+            for name in U.GROUPS:
+                for D in (torch.float32, torch.float64):
+                    X, Y = _rand_batch(name, 3, D, 11), _rand_batch(name, 3, D, 12)
+                    p3 = torch.ones(3, 3, dtype=D)
+                    p4 = torch.ones(3, 4, dtype=D)
+                    case = {"stream": "default-dtype", "type": name, "dtype": str(D), "default": str(default)}
+                    outs = {"Mul": X @ Y, "Inv": X.Inv(), "Act": X.Act(p3), "Act4": X.Act(p4), "matrix": X.matrix(), "rotation": X.rotation(),
+                            "identity_like": P.identity_like(X), "Retr": X + Y.Log().tensor(), "Log": X.Log(), "Exp(Log)": X.Log().Exp()}
+                    if U.TSL[name] is not None:
+                        outs["translation"] = X.translation()
+                    if U.SIDX[name] is not None:
+                        outs["scale"] = X.scale()
+                    for nm, v in outs.items():
+                        # identity_like documents "dtype: if None, uses a global default" — it follows the process default
+                        want_dt = default if nm == "identity_like" else D
+                        if v.dtype != want_dt:
+                            ctx.fail(case | {"op": nm}, f"dtype: {nm} of a {D} {name} element returns {v.dtype} under default dtype {default}")
+                    ctx.note_case(("default-dtype", name, str(D), str(default)), True)
+                    ctx.count("default-dtype")
+    finally:
+        torch.set_default_dtype(old)
 
 
 # ----------------------------------------------------------------------------- history stream
@@ -729,8 +888,12 @@ def run_corners(ctx: Ctx):
 
 
 def run(ctx: Ctx):
+    run_mode_order(ctx)          # first: the shapes it uses must be fresh in the process
     run_corners(ctx)
     run_retr_ladder(ctx)
+    run_ties(ctx)
+    run_default_dtype(ctx)
+    run_large(ctx)
     run_ops(ctx, ctx.pick(260, 3000))
     run_laws(ctx, ctx.pick(300, 4000))
     if ctx.quick:
